@@ -44,24 +44,27 @@ pub fn run_sequence(rep: &Report, seq: &[(usize, u8)]) -> u64 {
             s.find_best_move(&boards[*pi], *d, None);
             max_depth_so_far = max_depth_so_far.max(*d);
             let now = snapshot(&s);
+            // the most blatant case is reported (which entry a map yields first differs from run to run)
+            let mut worst: Option<(u8, u8)> = None;
             for (k, (pd, _)) in &prev {
                 if let Some((nd, _)) = now.get(k) {
                     compared += 1;
-                    if nd < pd {
-                        return Err(format!(
-                            "after search {} of the sequence (position {:?} to depth {}) the entry for key {:#018x} records depth {} where it recorded depth {} before: a result from a shallower search replaced one from a deeper search",
-                            step + 1, POSITIONS[*pi], d, k, nd, pd
-                        ));
+                    if nd < pd && worst.map(|(wn, wp)| (pd - nd, *pd) > (wp - wn, wp)).unwrap_or(true) {
+                        worst = Some((*nd, *pd));
                     }
                 }
             }
-            for (k, (nd, _)) in &now {
-                if *nd > max_depth_so_far {
-                    return Err(format!(
-                        "after search {} of the sequence (position {:?} to depth {}; no search so far went deeper than {}) the entry for key {:#018x} records depth {}: data that no search stored",
-                        step + 1, POSITIONS[*pi], d, max_depth_so_far, k, nd
-                    ));
-                }
+            if let Some((nd, pd)) = worst {
+                return Err(format!(
+                    "after search {} of the sequence (position {:?} to depth {}) an entry records depth {} where it recorded depth {} before: a result from a shallower search replaced one from a deeper search (keys are drawn afresh in every process, so the entry is named by its depths only)",
+                    step + 1, POSITIONS[*pi], d, nd, pd
+                ));
+            }
+            if let Some(nd) = now.values().map(|(nd, _)| *nd).filter(|nd| *nd > max_depth_so_far).max() {
+                return Err(format!(
+                    "after search {} of the sequence (position {:?} to depth {}; no search so far went deeper than {}) an entry records depth {}: data that no search stored",
+                    step + 1, POSITIONS[*pi], d, max_depth_so_far, nd
+                ));
             }
             prev = now;
         }
